@@ -206,8 +206,9 @@ def dictionary_take():
     for v in NOVEL:
         for limit in (v, v + 1, max(v - 1, 0)):
             n = min(v + 2, 70000)
-            for d in (8, min(v, 70000), min(v + 1, 70000)):
+            for d in (8, min(v, 70000), min(v + 1, 70000), min(2 * v, 70000), min(2 * v + 1, 70000), min(4 * v, 70000)):
                 cases.append(mk_take(limit, [97 + (i % 26) for i in range(n)], [], [], [("R", d), ("R", d), ("R", 8)], "dictionary"))
+                cases.append(mk_take(limit, [97 + (i % 26) for i in range(min(4 * v + 2, 70000))], [], [], [("R", d), ("R", d), ("R", 8)], "dictionary"))
                 cases.append(mk_take(limit, [97 + (i % 26) for i in range(n)], [(0, max(min(v, 70000), 1), 0)] * 2, [], [("R", d), ("R", 1), ("R", d)], "dictionary"))
     return cases
 
